@@ -932,3 +932,11 @@ def nested_running_specs():
                     "teams": [{"name": "TM0", "targets": [0, 1], "workers": [{"name": "surveyor", "skills": {"survey": 1.0}, "cost": 1.0}, {"name": "welder", "skills": {"weld": 1.0}, "fskills": {"machine": 1.0}, "cost": 1.0}]}],
                     "label": "nested-running:hull-leaves-while-block-is-welded:%s:%s" % (sv, wd)})
     return out
+
+
+def oven_spec(cure_work=3.0):
+    """a panel whose only task is an automatic cure in an oven, next to a frame that is welded and painted by hand"""
+    return {"tasks": [{"name": "cure", "work": cure_work, "auto": True}, {"name": "weld", "work": 3.0}, {"name": "paint", "work": 3.0}], "links": [[1, 2, "FS"]],
+            "components": [{"name": "panel", "tasks": [0]}, {"name": "frame", "tasks": [1, 2]}],
+            "workplaces": [{"name": "oven", "cap": 1.0, "targets": [0], "facilities": [{"name": "heater", "skills": {"cure": 1.0}, "cost": 1.0}]}],
+            "teams": [{"name": "TM0", "targets": [1, 2], "workers": [{"name": "W0", "skills": {"weld": 1.0, "paint": 1.0}, "cost": 1.0}]}], "label": "oven:%s" % cure_work}
